@@ -78,13 +78,14 @@ IsECDSA(e) == e.proto \in {"dkls23-bbot", "dkls23-softspoken", "lindell17", "cgg
 \* who outputs a signature: DKLs23 / Boldyreva: every party aggregates; Lindell17: the primary; Lindell22: the plain aggregator
 \* and (round API) every cosigning aggregator; CGGMP21: every cosigning aggregator and the plain one
 OutCount(e) ==
-  CASE e.proto \in {"dkls23-bbot", "dkls23-softspoken", "bls"} -> Len(e.quorum)
+  CASE e.proto \in {"dkls23-bbot", "dkls23-softspoken"} -> Len(e.quorum)
+    [] e.proto = "bls" -> e.nAgg          \* the number of members whose public material the driver built an aggregator from (>= 1)
     [] e.proto = "lindell17" -> 1
     [] e.proto = "lindell22" -> IF e.api = "rounds" THEN Len(e.quorum) + 1 ELSE 1
     [] e.proto = "cggmp21" -> Len(e.quorum) + 1
 Terminates(e) == e.started /\ Len(e.rejects) = 0 /\ SeqToSet(e.completed) = QuorumOf(e)
 SameOutput(e) ==
-  /\ Len(e.outErrs) = 0 /\ Len(e.outs) = OutCount(e)
+  /\ Len(e.outErrs) = 0 /\ Len(e.outs) = OutCount(e) /\ OutCount(e) >= 1
   /\ \A i, j \in 1..Len(e.outs) : e.outs[i].tok = e.outs[j].tok /\ (i # j => e.outs[i].who # e.outs[j].who)
 \* BLS signatures are unique: every qualified sub-collection of the partial signatures aggregates to the same signature, every
 \* unqualified one is refused by the aggregator
